@@ -119,3 +119,22 @@ package client
 //@   opaque-callee collapse resolveLockCollapseKey
 //@   ensures only: canCollapse ==> req.Type == tikvrpc.CmdResolveLock && len(req.Req.(*kvrpcpb.ResolveLockRequest).Keys) == 0 && len(req.Req.(*kvrpcpb.ResolveLockRequest).TxnInfos) == 0
 //@   ensures direct: !canCollapse ==> resp == nil && err == nil
+
+// Starting a new batch: the builder's direct group is emptied completely - requests, request ids and entries together (they
+// are positionally aligned: a left-over id would pair the next batch's requests with the wrong ids) - and no forwarding
+// group survives.
+//@ func (*batchCommandsBuilder) reset
+//@   prop C18
+//@   may-panic
+//@   opaque-callee clean
+//@   loop 1 invariant l1: 0 <= i
+//@   loop 2 invariant l2: 0 <= i
+//@   loop 3 invariant l3: true
+//@   ensures emptied: len(b.directGroup.req.Requests) == 0 && len(b.directGroup.req.RequestIds) == 0 && len(b.directGroup.entries) == 0 && b.directGroup.state == nil
+// Cancelling hands the error to every queued entry and empties the queue.
+//@ func (*batchCommandsBuilder) cancel
+//@   prop C18
+//@   may-panic
+//@   opaque-callee all reset
+//@   loop 1 invariant l1: -1 <= rangeindex
+//@   at call(error) assert same: arg0 == e
